@@ -214,11 +214,11 @@ def gen():
                    % (name, ps, " ".join(hyps), name, args, " ∧\n    ".join(concl)))
         out.append("  unfold cls.%s at h" % name)
         out.append("  cls_norm at h")
-        tac = "bv_decide"
+        tac = "bv_decide (timeout := 600)"
         if cases:
             fns = ", ".join(sorted(set(f for _, f in cases)))
             tac = " <;> ".join("cases %s" % p for p, _ in cases) + \
-                  " <;> simp only [%s, bind_ok, pure_ok, ok_ok, ex_elim, ex_elim', ex_elim_r, throw, throwThe, MonadExceptOf.throw, reduceCtorEq, false_and, exists_false, and_false] at h ⊢ <;> bv_decide" % fns
+                  " <;> simp only [%s, bind_ok, pure_ok, ok_ok, ex_elim, ex_elim', ex_elim_r, throw, throwThe, MonadExceptOf.throw, reduceCtorEq, false_and, exists_false, and_false] at h ⊢ <;> bv_decide (timeout := 600)" % fns
         out.append("  " + tac)
         exargs = " ".join(EX[t] if p not in ("imm7", "imm9", "imm19", "imm14", "imm26") else "4294967295#32" for p, t in params)
         if name == "system":
